@@ -1,11 +1,15 @@
 package service
 
 import (
+	"net/netip"
 	"time"
 
 	"github.com/database64128/shadowsocks-go/conn"
+	"github.com/database64128/shadowsocks-go/direct"
 	"github.com/database64128/shadowsocks-go/jsoncfg"
 	"github.com/database64128/shadowsocks-go/ss2022"
+	"github.com/database64128/shadowsocks-go/stats"
+	"go.uber.org/zap"
 )
 
 // C18 — validators: accepted configurations satisfy the documented invariants, omitted fields get
@@ -65,4 +69,38 @@ func vfC18_UDPListener() {
 		vfReach("refused")
 	}
 	vfReach("end")
+}
+
+// vfC18_DirectTunnel: a "direct" server with UDP enabled.  Whatever tunnel address kind and
+// target-only flag the configuration carries, it is either refused at load, or the first reply
+// relayed back to the client does not crash the process.
+//   cases: dom (0 IP tunnel address, 1 domain tunnel address)
+func vfC18_DirectTunnel() {
+	var tunnel conn.Addr
+	if vfCase("dom") == 1 {
+		tunnel = conn.MustAddrFromDomainPort("dns.example.com", 53)
+	} else {
+		tunnel = conn.AddrFromIPAndPort(vfAddrFrom4([4]byte{9, 9, 9, 9}), 53)
+	}
+	sc := &ServerConfig{Name: "d", Protocol: "direct", MTU: 1500, TunnelRemoteAddress: tunnel, TunnelUDPTargetOnly: vfBool("targetOnly"),
+		UDPListeners: []UDPListenerConfig{{ListenerConfig: ListenerConfig{Network: "udp", Address: "[::1]:0"}}}}
+	err := sc.Initialize(nil, conn.NewListenConfigCache(), stats.Config{}, nil, zap.NewNop(), 0)
+	if err != nil {
+		vfReach("refused")
+		return
+	}
+	// what the UDP relay does with this configuration: unpack a client packet, pack the reply
+	nat := direct.NewDirectUDPNATServer(sc.TunnelRemoteAddress, sc.TunnelUDPTargetOnly)
+	u, err := nat.NewUnpacker()
+	vfAssert(err == nil, "unpacker")
+	buf := make([]byte, 100)
+	client := netip.AddrPortFrom(vfAddrFrom4([4]byte{198, 51, 100, 7}), 40000)
+	ta, ps, pl, err := u.UnpackInPlace(buf, client, 0, 50)
+	vfAssert(err == nil && ta.Equals(tunnel) && ps == 0 && pl == 50, "packets are forwarded to the tunnel address")
+	p, err := u.NewPacker()
+	vfAssert(err == nil, "packer")
+	var from4 [4]byte
+	copy(from4[:], vfBytes("replyFrom", 4))
+	_, _, _ = p.PackInPlace(buf, netip.AddrPortFrom(vfAddrFrom4(from4), vfU16("replyPort")), 0, 50, 1472)
+	vfReach("accepted")
 }
